@@ -76,6 +76,7 @@ pub struct ExprStream {
     pub generated: usize,
     pub mutated: usize,
     pub shapes: usize,
+    pub comp_reps: usize,
     seed: u64,
 }
 
@@ -92,12 +93,13 @@ impl ExprStream {
             generated,
             mutated,
             shapes,
+            comp_reps: generated / 5,
             seed,
         }
     }
 
     pub fn len(&self) -> usize {
-        self.corpus.len() + self.sweep.len() + self.generated + self.mutated + self.shapes
+        self.corpus.len() + self.sweep.len() + self.generated + self.mutated + self.shapes + self.comp_reps
     }
 
     pub fn corpus_len(&self) -> usize {
@@ -148,6 +150,10 @@ impl ExprStream {
             return e;
         }
         i -= self.mutated;
+        if i >= self.shapes {
+            let mut rng = Rng::derive(self.seed, "expr-comp-rep", (i - self.shapes) as u64);
+            return gexpr::component_repetition(&mut rng);
+        }
         let mut rng = Rng::derive(self.seed, "expr-shape", i as u64);
         gexpr::branch_shapes(&mut rng, 1).pop().unwrap_or_default()
     }
